@@ -106,6 +106,15 @@ def scenario(name):
             v.files[V + "old/annot1.db"].content += ":inferred"
             v.files[V + "old/annot1.db"].committed.add(v.files[V + "old/annot1.db"].content)
         return [(1, g(1), o(1), False, False, True), (2, g(1), o(2), False, False, False)], init
+    if name == "reconvert-in-place-vs-hit":
+        # the cached database lies in the output folder of an earlier run; a new run with --clean_start converts the same annotation into
+        # that same folder again (in place) while another run has just been handed the cached file
+        def init(v):
+            base_init(v, cfg_exists=True)
+            db = o(1) + "/annot1.db"
+            v.add(db, "db-from:%s@%s" % (g(1), 11.0), mtime=31.0)
+            v.files[CFG + "/db_config.json"].content = json.dumps({g(1): {"genedb": db, "gtf_mtime": 11.0, "db_mtime": 31.0, "complete_db": True}})
+        return [(1, g(1), o(1), True, False), (2, g(1), o(2), False, False)], init
     if name == "three-processes":
         return [(1, g(1), o(1), False, False), (2, g(2), o(2), False, False), (3, g(3), o(3), False, False)], lambda v: base_init(v, cfg_exists=True)
     if name == "three-fresh":
@@ -152,7 +161,13 @@ def run_scenario(args):
     import src.gtf2db  # noqa
     gffutils.create_db = fake_create_db
     os.environ["HOME"] = HOME
-    specs, init = scenario(name)
+    import tempfile
+    tempfile.tempdir = V + "tmp"          # the per-user temporary directory is shared state too: it lives in the virtual FS
+    specs, init0 = scenario(name)
+
+    def init(vfs):
+        init0(vfs)
+        vfs.dirs.add(V + "tmp")
     ip = schedfs.Interposer()
     ip.install()
     try:
@@ -167,7 +182,7 @@ def run(ctx):
     quick = ctx.tier == "quick"
     jobs = []
     two = ["fresh-home-different-gtf", "fresh-home-same-gtf", "existing-config-different-gtf", "cache-hit-vs-miss", "clean-start-vs-hit",
-           "same-gtf-different-completeness", "inferred-cached-vs-complete"]
+           "same-gtf-different-completeness", "inferred-cached-vs-complete", "reconvert-in-place-vs-hit"]
     # thorough: bound 4 needs ~3 min per fresh-home scenario (5*10^4 executions, 3*10^5 states); unbounded exploration of the
     # fresh-home scenarios did not finish within 50 minutes and is therefore not claimed
     for n in two:
@@ -215,7 +230,13 @@ def replay(ctx, case):
     import gffutils
     gffutils.create_db = fake_create_db
     os.environ["HOME"] = HOME
-    specs, init = scenario(case["scenario"])
+    import tempfile
+    tempfile.tempdir = V + "tmp"
+    specs, init0 = scenario(case["scenario"])
+
+    def init(vfs):
+        init0(vfs)
+        vfs.dirs.add(V + "tmp")
     ip = schedfs.Interposer()
     ip.install()
     try:
